@@ -3414,8 +3414,22 @@ bool ts_query__step_is_fallible(
 
   // An anchored sibling must be the very next node. The analysis only establishes that the
   // sibling occurs eventually (extras may come in between), so this node may be the wrong
-  // candidate even if the rest of the parent pattern is guaranteed.
-  if (next_step->depth == step->depth && next_step->is_immediate) return true;
+  // candidate even if the rest of the parent pattern is guaranteed. The sibling's step comes
+  // after this step's child steps, and after the jump that ends an alternation branch.
+  uint32_t sibling_index = (uint32_t)step_index + 1;
+  for (uint32_t n = 0; n < self->steps.size && sibling_index < self->steps.size; n++) {
+    const QueryStep *sibling = array_get(&self->steps, sibling_index);
+    if (sibling->depth == PATTERN_DONE_MARKER) break;
+    if (sibling->is_dead_end) {
+      if (sibling->alternative_index == NONE || sibling->alternative_index <= sibling_index) break;
+      sibling_index = sibling->alternative_index;
+    } else if (sibling->is_pass_through || sibling->depth > step->depth) {
+      sibling_index++;
+    } else {
+      if (sibling->depth == step->depth && sibling->is_immediate) return true;
+      break;
+    }
+  }
 
   return (
     next_step->depth > step->depth &&
